@@ -34,9 +34,10 @@ const (
 	streamBytes
 	streamDeep
 	streamRevCycle
+	streamDevKinds
 )
 
-var streamNames = []string{"i-corpus", "ii-repo-texts", "iii-grammar-mutation", "iv-byte-mutation", "iv-depth-and-error-budget", "v-revision-twins-and-cycles"}
+var streamNames = []string{"i-corpus", "ii-repo-texts", "iii-grammar-mutation", "iv-byte-mutation", "iv-depth-and-error-budget", "v-revision-twins-and-cycles", "vi-deviations-onto-every-kind-and-bracket-paths"}
 
 // job is one history to run: explicit, or generated from (stream, idx) and the seed.
 type job struct {
@@ -309,7 +310,7 @@ type agg struct {
 	res        *lib.Result
 	distinct   *lib.Distinct
 	nontriv    *lib.Distinct
-	streams    [6]streamStats
+	streams    [7]streamStats
 	ops        map[string]int64
 	whyFuzz    map[string]int64
 	errClass   map[string]int64
@@ -325,6 +326,15 @@ type agg struct {
 	// past 24 of them the rest of the stream is skipped (each costs seconds; the first ones name the fault)
 	costly  int64
 	skipped int64
+	// hangs: histories that ran into the time bounds (confirmed timeout, processor-time limit).  Each costs
+	// 15 s or more; when a change makes a call hang that every history makes (a read-back accessor), all of
+	// them would: past 24 the rest of the run is skipped and counted (the first ones name the fault)
+	hangs       int64
+	hangSkipped int64
+	// reflective read-back
+	methods     map[string]string
+	calls       int64
+	sideEntries int64
 }
 
 func main() {
@@ -346,7 +356,7 @@ func main() {
 	}
 	res := lib.NewResult("C01", f)
 	a := &agg{res: res, distinct: lib.NewDistinct(), nontriv: lib.NewDistinct(), ops: map[string]int64{}, whyFuzz: map[string]int64{},
-		errClass: map[string]int64{}, crashSeen: map[string]int{}}
+		errClass: map[string]int64{}, crashSeen: map[string]int{}, methods: map[string]string{}}
 
 	// obligation: the model layer contains no `partial` definition (Proto.lean is the I/O loop of
 	// the driver executables, not a model function)
@@ -470,6 +480,11 @@ func main() {
 		h := h
 		jobs = append(jobs, job{stream: streamRevCycle, idx: i, h: &h})
 	}
+	// deviations of every property onto every kind of target, bracket shapes in every path argument (devkinds.go)
+	for i, h := range devKindsAndBrackets(f.Thorough()) {
+		h := h
+		jobs = append(jobs, job{stream: streamDevKinds, idx: i, h: &h})
+	}
 	// amplifiers: k levels, each referring to the previous one b times, for every kind of reference
 	for i, h := range amplifierHistories() {
 		h := h
@@ -501,10 +516,10 @@ func main() {
 			}
 		}
 		jobs = keep
-	} else if only == "revcycle" || only == "corpus" {
+	} else if only == "revcycle" || only == "corpus" || only == "devkinds" {
 		var keep []job
 		for _, j := range jobs {
-			if (only == "revcycle" && j.stream == streamRevCycle) || (only == "corpus" && j.stream == streamCorpus) {
+			if (only == "revcycle" && j.stream == streamRevCycle) || (only == "corpus" && j.stream == streamCorpus) || (only == "devkinds" && j.stream == streamDevKinds) {
 				keep = append(keep, j)
 			}
 		}
@@ -545,6 +560,10 @@ func main() {
 					atomic.AddInt64(&a.skipped, 1)
 					continue
 				}
+				if atomic.LoadInt64(&a.hangs) >= 24 {
+					atomic.AddInt64(&a.hangSkipped, 1)
+					continue
+				}
 				var h History
 				var ops []string
 				switch {
@@ -559,6 +578,9 @@ func main() {
 				v := w.run(&h)
 				if v.Crashed && v.Kind != "panic" && j.stream == streamRevCycle {
 					atomic.AddInt64(&a.costly, 1)
+				}
+				if v.Crashed && (v.Kind == "timeout" || v.Kind == "resource") {
+					atomic.AddInt64(&a.hangs, 1)
 				}
 				a.evaluate(f, d, j, &h, &v, ops)
 			}
@@ -590,6 +612,17 @@ func main() {
 	if a.skipped > 0 {
 		res.Distribution["stream_v_histories_skipped_after_24_dead_children"] = a.skipped
 	}
+	if a.hangSkipped > 0 {
+		res.Distribution["histories_skipped_after_24_that_ran_into_the_time_bounds"] = a.hangSkipped
+	}
+	var inv []string
+	for k, v := range a.methods {
+		inv = append(inv, k+": "+v)
+	}
+	sort.Strings(inv)
+	res.Distribution["readback_accessors(listed by reflection at run time)"] = inv
+	res.Distribution["readback_accessor_calls"] = a.calls
+	res.Distribution["readback_entries_beside_the_children"] = a.sideEntries
 	res.Distribution["max_go_time_ms_of_one_history"] = a.maxMicros / 1000
 	res.Distribution["max_cpu_ms_of_one_history"] = a.maxCPUms
 	res.Distribution["max_memory_held_mib_of_one_history"] = a.maxPeakMiB
@@ -688,6 +721,14 @@ func expectText(h *History) string {
 		return "errors from Process"
 	}
 	return "a text rejected by Modules.Parse"
+}
+
+func firstWords(s string, n int) string {
+	f := strings.Fields(s)
+	if len(f) > n {
+		f = f[:n]
+	}
+	return strings.Join(f, " ")
 }
 
 func short(s string, n int) string {
@@ -810,8 +851,12 @@ func (a *agg) evaluate(f *lib.Flags, d *driver, j job, h *History, v *Verdict, o
 			sig = v.Kind + " " + short(firstLine(v.Msg), 80)
 		}
 		if v.Kind == "resource" || v.Kind == "timeout" {
-			// the message carries measurements: one signature per family of inputs
-			sig = v.Kind + " " + strings.SplitN(h.What, ";", 2)[0]
+			// the message carries measurements: one signature per place it is stuck in, else per family of inputs
+			if site != "" {
+				sig = "time bound " + site + " " + firstWords(v.Rep.Phase, 2)
+			} else {
+				sig = v.Kind + " " + strings.SplitN(h.What, ";", 2)[0]
+			}
 		}
 		a.crashSeen[sig]++
 		// every crash of the corpus is reported; of the generated streams at most 3 per site
@@ -827,7 +872,7 @@ func (a *agg) evaluate(f *lib.Flags, d *driver, j job, h *History, v *Verdict, o
 			}
 			a.res.Disagreements = append(a.res.Disagreements, lib.Disagreement{Kind: kind, Input: inputSummary(h),
 				Go: short(v.Msg, 3000), SpecVerdict: "violates", Known: knownTag(h, v),
-				What:   fmt.Sprintf("%s: goyang %s on a %s history (%s): %s [history: %s]", clauseOf(v), v.Kind, h.Stream, site, short(firstLine(v.Msg), 200), short(h.What, 240)),
+				What:   fmt.Sprintf("%s: goyang %s on a %s history (%s): %s [history: %s]", clauseOf(v), v.Kind, h.Stream, site, short(firstLine(v.Msg), 420), short(h.What, 240)),
 				Replay: h})
 		}
 		n, _ := a.res.Distribution["disagreements_total"].(int)
@@ -854,6 +899,13 @@ func (a *agg) evaluate(f *lib.Flags, d *driver, j job, h *History, v *Verdict, o
 		st.ProcessErrors++
 	}
 	st.Nodes += int64(v.Rep.Nodes)
+	a.calls += v.Rep.Calls
+	a.sideEntries += int64(v.Rep.Side)
+	for _, m := range v.Rep.Methods {
+		if i := strings.Index(m, ": "); i > 0 {
+			a.methods[m[:i]] = m[i+2:]
+		}
+	}
 	for _, e := range v.Rep.Errs {
 		a.errClass[errClassOf(e)]++
 	}
